@@ -40,6 +40,15 @@ class _RabbitConsumer(ConsumerT):
         self.__is_consuming: bool = False
 
     async def consume(self) -> tuple[RoutingKeyT, str, ParametersT]:
+        while True:
+            msg = await self.__next_buffered()
+            # a message may have expired while it was waiting in the local buffer
+            if self.category == MessageCategory.NORMAL and msg[2].is_overdue:
+                await self.broker.nack(msg[0])
+                continue
+            return msg
+
+    async def __next_buffered(self) -> tuple[RoutingKeyT, str, ParametersT]:
         # fast-path without task creation
         if not self.queue.empty():
             return self.queue.get_nowait()
